@@ -173,7 +173,7 @@ def main(argv=None):
     undis = [o for o in obligations if o["status"] != "discharged" and not o["name"].endswith("/mustfail")]
     mustfail = [o for o in obligations if o["name"].endswith("/mustfail")]
     vacuous = [o for o in mustfail if o["status"] == "discharged"]
-    real_obs = [o for o in obligations if not o["name"].endswith("/mustfail")]
+    real_obs = [o for o in obligations if not o["name"].endswith("/mustfail") and not o.get("bounded")]
 
     # ---- native: replay of counterexamples + random cross-check of the contracts on the real code
     replay_jobs = []
@@ -183,7 +183,7 @@ def main(argv=None):
             o["_replay_id"] = f"replay{i}"
     rnd = random.Random(seed)
     cross_jobs = []
-    if hasattr(cm, "native_samples"):
+    if hasattr(cm, "native_samples") and not a.filter:
         n_samples = 400 if tier == "thorough" else 40
         cross_jobs = cm.native_samples(reg, rnd, n_samples)
     native_out = {}
